@@ -54,6 +54,11 @@ func oracle(c Case, o *h.Obs) *h.Fail {
 func TestC04(t *testing.T) {
 	c := h.New(t, "C04")
 	defer c.Finish()
+	if c.Thorough() {
+		// the thorough tier also explores larger programs
+		profile.MaxDepth++
+		profile.MaxStmts += 2
+	}
 	c.Rule("constructive generator, profile 'scopes': nested blocks of every kind over the name pool {a,b,c,d} with x=e, var x=e, reads p(id,x), existence probes, closures (named, stored, escaping), modules, recursion; non-trivial = the run contains a shadowing var/parameter/loop variable or an assignment creating a block-local binding AND a read of such a name after its scope ended; distinct by source text")
 	h.Run(c, "scopes", c.N(12000, 120000), gen, oracle)
 }
